@@ -279,12 +279,16 @@ def transformer_scc(ctx, rid, key, comp, g, bindings):
     res = [m for m in comp if cshort(m) == "Transformer::resolve"]
     fn = ctx.P.body(res[0])
     N = Norm(fn)
-    # order of statements in resolve: lookup -> cache check -> insert Recursive -> policy -> insert Computed
+    # order of statements in resolve: lookup -> cache check -> mark in progress -> policy -> store result
     order = []
+    weak_marker = False
     for n in walk(fn["body"], into_closures=False):
-        if n.get("k") == "MethodCall" and cshort(n.get("callee", "")) == "HashMap::insert":
-            a = show(N.term(n["args"][1]))
-            order.append("insert:" + ("Recursive" if "Recursive" in a else "Computed" if "Computed" in a else a[:30]))
+        if n.get("k") == "MethodCall" and cshort(n.get("callee", "")) in ("HashMap::insert", "Entry::or_insert", "Entry::or_insert_with"):
+            a = show(N.term(n["args"][-1]))
+            kind = "Recursive" if "Recursive" in a else "Computed" if "Computed" in a else a[:30]
+            if cshort(n["callee"]) != "HashMap::insert" and kind == "Recursive":
+                weak_marker = True      # keeps an existing (possibly Computed) entry
+            order.append("insert:" + kind)
         elif n.get("k") == "Call" and "f" in n:
             f = strip(n["f"])
             if f.get("k") == "Field":
@@ -293,6 +297,17 @@ def transformer_scc(ctx, rid, key, comp, g, bindings):
     ctx.expect(order == want, rid, key + "/marker-order", fn["sp"],
                "resolve(): consult recurse/cache-hit policy, mark the id in progress, run the policy, store the result - in this order",
                "order of cache operations and policy calls in Transformer::resolve is %s, expected %s" % (order, want))
+    if weak_marker:
+        # `entry(id).or_insert(Recursive)` leaves a Computed entry in place: safe only if the bound cache-hit policy never lets
+        # the transformer continue (never returns None) - otherwise a type computed once loses its recursion guard
+        for b in bindings:
+            if b["field"].endswith(".cache_hit_policy"):
+                pf = ctx.P.body(b["bound_to"])
+                pt = show(Norm(pf).term(pf["body"])) if pf else "?"
+                ctx.expect("v1::None" not in pt, rid, key + "/marker-overwrites/" + cshort(b["in"]), fn["sp"],
+                           "the in-progress marker keeps existing entries, but this instantiation's cache-hit policy never continues past a computed entry",
+                           "the in-progress marker no longer overwrites a computed entry and the cache-hit policy `%s` returns None (continue): a type that was computed once is "
+                           "re-entered without recursion guard" % cshort(b["bound_to"]))
     t = show(N.term(fn["body"]), 10 ** 5)
     ok = "Cached::Recursive=>" in t and "(P0.recurse_policy)(P1," in t.replace(" ", "") or "recurse_policy" in t
     # per binding: recurse policies
